@@ -1,5 +1,5 @@
 SPECIFICATION Spec
-CONSTANTS NH = 3 Gran = 4 Hdr = 64 PChunk = 64 MaxLen = 1 MaxArg = 1 Prune = FALSE Api = "c" CtrMax = 2
+CONSTANTS NH = 3 Gran = 4 Hdr = 64 PChunk = 64 MaxLen = 1 MaxArg = 1 Prune = FALSE Api = "c" CtrMax = 1
 CONSTRAINT Bound
 VIEW View
 INVARIANTS TypeOK AliasOK Refines NoTouch
